@@ -126,6 +126,40 @@ REQ_FRAMINGS = [
     ("expect", [b"Content-Length: 3", b"Expect: 100-continue"], b"abc"),
 ]
 
+
+def _encoded_bodies():
+    """bodies with a decodable Content-Encoding: the encoded octets (what is on the wire and must stay on the wire) differ in
+    length from the decoded ones, and the decoded form ends in something that reads as a second request"""
+    import gzip
+    import zlib
+    plain = b"Z" * 40 + SMUGGLE
+    gz = gzip.compress(plain, mtime=0)
+    df = zlib.compress(plain)
+    out = [
+        ("ce-gzip", [b"Content-Encoding: gzip", b"Content-Length: %d" % len(gz)], gz),
+        ("ce-deflate", [b"Content-Encoding: deflate", b"Content-Length: %d" % len(df)], df),
+        ("ce-gzip-chunked", [b"Content-Encoding: gzip", b"Transfer-Encoding: chunked"], chunked(gz[:10], gz[10:])),
+        ("ce-gzip-broken", [b"Content-Encoding: gzip", b"Content-Length: 5"], b"\x1f\x8bxyz"),
+        ("ce-identity", [b"Content-Encoding: identity", b"Content-Length: 3"], b"abc"),
+        ("ce-unknown", [b"Content-Encoding: rot13", b"Content-Length: 3"], b"abc"),
+    ]
+    try:
+        import brotli
+        br = brotli.compress(plain)
+        out.append(("ce-br", [b"Content-Encoding: br", b"Content-Length: %d" % len(br)], br))
+    except Exception:
+        pass
+    try:
+        import zstandard
+        zs = zstandard.ZstdCompressor().compress(plain)
+        out.append(("ce-zstd", [b"Content-Encoding: zstd", b"Content-Length: %d" % len(zs)], zs))
+    except Exception:
+        pass
+    return out
+
+
+REQ_FRAMINGS += _encoded_bodies()
+
 # other header-section oddities (with an unambiguous CL 3 body)
 REQ_ODD = [
     ("bad-name-space", [b"X Y: 1", b"Content-Length: 3"], b"abc"),
@@ -243,7 +277,7 @@ def input_classes(raws, responses, addon_label, req_methods):
             ks.add(KF_INTERIM)
         bodiless = meth.upper() == b"HEAD" or st in (204, 304) or 100 <= st <= 199
         te_chunked = re.search(rb"\r\ntransfer-encoding:[^\r\n]*chunked", _head_of(r).lower()) is not None
-        if bodiless and ((te_chunked and meth.upper() != b"HEAD") or addon_label == "resp.content"):
+        if bodiless and ((te_chunked and meth.upper() != b"HEAD") or addon_label in ("resp.content", "resp.content.empty")):   # (empty content under Content-Encoding: gzip is a non-empty raw body)
             ks.add(KF_NOBODY)
     return ks
 
@@ -438,7 +472,7 @@ def bounded(tier, seed):
     for (lab, lines, body) in REQ_FRAMINGS[:8] + REQ_FRAMINGS[25:30]:
         cases.append((f"A-lf:{lab}", [mk_request(lines=lines, body=body, eol=b"\n")], [RESP_OK], "none", None))
     # (B) pipelining: every ordered pair (and sampled triples) from a pool
-    pool_labels = ["none", "cl3", "te-chunked", "te-chunked-2", "cl-dup-diff2", "te-cl-smuggle", "cl-te-smuggle", "cl-plus", "te-xchunked", "expect", "cl-smuggle", "te-gzip-chunked"]
+    pool_labels = ["none", "cl3", "te-chunked", "te-chunked-2", "cl-dup-diff2", "te-cl-smuggle", "cl-te-smuggle", "cl-plus", "te-xchunked", "expect", "cl-smuggle", "te-gzip-chunked", "ce-gzip", "ce-gzip-chunked"]
     pool = [(lab, lines, body) for lab, lines, body in REQ_FRAMINGS if lab in pool_labels] + [x for x in REQ_ODD if x[0] in ("obs-fold", "bare-cr", "bad-name-space", "conn-close")]
     for p in itertools.product(pool, repeat=2):
         raws = [mk_request(b"POST", target=b"http://example.com/r%d" % i, lines=l, body=bd) for i, (_, l, bd) in enumerate(p)]
@@ -458,8 +492,8 @@ def bounded(tier, seed):
         raws = [mk_request(m, target=b"http://example.com/one", version=v, lines=lines, body=body), mk_request(b"GET", target=b"http://example.com/two", version=v)]
         cases.append((f"C:{lab}:{m.decode()}:{v.decode()}", raws, [(raw, close), (b"HTTP/1.1 200 OK\r\nContent-Length: 6\r\n\r\nsecond", False)], "none", amb))
     # (D) addon edits on a representative subset
-    sub_req = [x for x in REQ_FRAMINGS if x[0] in ("none", "cl3", "te-chunked", "te-gzip-chunked", "expect", "cl-ows")]
-    sub_resp = [x for x in response_variants() if x[0] in ("none", "cl3", "te-chunked", "204", "304", "http10-close", "te-gzip", "http10-cl")]
+    sub_req = [x for x in REQ_FRAMINGS if x[0] in ("none", "cl3", "te-chunked", "te-gzip-chunked", "expect", "cl-ows", "ce-gzip", "ce-deflate")]
+    sub_resp = [x for x in response_variants() if x[0] in ("none", "cl3", "te-chunked", "204", "304", "http10-close", "te-gzip", "http10-cl", "ce-gzip")]
     for (alab, _), (lab, lines, body), (rlab, raw, close), m in itertools.product(addon_policies()[1:], sub_req, sub_resp, [b"POST", b"HEAD"]):
         raws = [mk_request(m, target=b"http://example.com/one", lines=lines, body=body), mk_request(b"GET", target=b"http://example.com/two")]
         cases.append((f"D:{alab}:{lab}:{rlab}:{m.decode()}", raws, [(raw, close), (b"HTTP/1.1 200 OK\r\nContent-Length: 6\r\n\r\nsecond", False)], alab, None))
@@ -1271,3 +1305,99 @@ def s_check_invalid(vc):
         vc.ensure("accepted.returns_false", vc.eq(out.result, False))
         vc.ensure("accepted.emits_nothing", len(tr) == 0)
         vc.ensure("accepted.flow_untouched", isnone(flow.error) and vc.eq(flow.live, True))
+
+
+# ---------------------------------------------------------------------------------------------------------------------
+# HttpStream: a buffered message is handed to the HTTP/1 writer with exactly the recorded octets (raw_content, i.e. the body
+# as it is on the wire under the forwarded Content-Encoding / Content-Length), never a decoded form
+
+def _real_decode(raw: bytes, enc: str):
+    from mitmproxy.net import encoding
+    try:
+        r = encoding.decode(raw, enc)
+        return r if isinstance(r, bytes) else raw
+    except Exception:
+        return raw
+
+
+def _oracle_c01_decode(raw, enc):
+    return _real_decode(raw.encode("latin-1", "replace"), enc).decode("latin-1")
+
+
+def _register_decode_oracle():
+    from pyvc import lib
+    lib.UF_ORACLES.setdefault("c01_decode", _oracle_c01_decode)
+
+
+_register_decode_oracle()
+
+
+def summarise_content_decoding(vc):
+    """mitmproxy.net.encoding.decode (gzip / deflate / br / zstd codecs: third-party) is replaced by an uninterpreted function
+    of (octets, coding) — no fact at all, in particular it need not be the identity; natively the real decoder runs"""
+    from mitmproxy.net import encoding as E
+    real = E.decode
+
+    def dec(v, encoded, enc, errors="strict"):
+        if v.mode == "native":
+            return real(encoded, enc, errors)
+        import z3
+        from pyvc import lib
+        if isnone(encoded):
+            return None
+        e = lift(enc)
+        return SBytes(lib.uf("c01_decode", z3.StringSort(), z3.StringSort(), z3.StringSort())(lift(encoded).t, e.t))
+
+    vc.summary("mitmproxy.net.encoding:decode", dec)
+
+
+def _gz(x):
+    import gzip
+    return gzip.compress(x, mtime=0)
+
+
+BODY_CANDS = [dict(raw=r, cev=c, edited=e) for r, c in ((_gz(b"Z" * 30 + b"GET /x HTTP/1.1\r\n\r\n"), b"gzip"), (b"abc", b"identity"), (b"abc", b"gzip"), (b"", b"gzip"), (_gz(b""), b"gzip"))
+              for e in (_gz(b"edited"), b"xyz")]
+
+
+@scenario("consume_request_body.forwards_raw_content", functions=[HTTPL + "HttpStream.state_consume_request_body"], candidates=BODY_CANDS)
+def s_consume_request_eom(vc):
+    from props import httpstream as HS_
+    has_ce = vc.case("content_encoding", [True, False])
+    addon_edits = vc.case("addon_sets_raw_content", [False, True])
+    raw, cev, edited = vc.sym_bytes("raw"), vc.sym_bytes("cev"), vc.sym_bytes("edited")
+    fields = [(b"Content-Encoding", cev)] if has_ce else []
+    req = HS_.mk_request(vc, headers=HS_.mk_headers(vc, fields), method=b"POST")
+    st, flow, client, server = HS_.mk_stream(vc, "state_consume_request_body", "state_wait_for_response_headers", request=req, reqbuf=raw)
+    summarise_content_decoding(vc)
+
+    def on_yield(cmd):
+        n = cmd.cls.__name__ if isinstance(cmd, SObj) else type(cmd).__name__
+        if n == "GetHttpConnection":
+            return (server, None)
+        if n == "HttpRequestHook" and addon_edits:
+            cmd.flow.request.data.content = edited      # the addon replaces the octets on the wire (raw_content)
+        return None
+
+    ev = HS_.ev(vc, "RequestEndOfMessage")
+    out = vc.call(HTTPL + "HttpStream.state_consume_request_body", st, ev, on_yield=on_yield)
+    vc.ensure("no_exception", out.ok)
+    if not out.ok:
+        return
+    tr = out.trace
+    recorded = edited if addon_edits else raw       # flow.request.raw_content as the request hook leaves it
+    vc.ensure("recorded.raw_content", flow.request.data.content == recorded)
+    sends = [c for c in tr if HS_.is_send(c, conn=server)]
+    heads = [c for c in sends if HS_.is_send(c, "RequestHeaders")]
+    datas = [c for c in sends if HS_.is_send(c, "RequestData")]
+    vc.ensure("one_head_for_the_flows_request", len(heads) == 1 and heads[0].event.request is flow.request)
+    if vc.branch(len_(recorded) > 0):
+        vc.ensure("one_data_event", len(datas) == 1)
+        if len(datas) == 1:
+            vc.ensure("data_is_exactly_the_recorded_octets", datas[0].event.data == recorded)
+        if heads:
+            vc.ensure("head_not_marked_as_end", vc.eq(heads[0].event.end_stream, False))
+    else:
+        vc.ensure("no_data_event_for_an_empty_body", len(datas) == 0)
+    vc.ensure("ends_with_end_of_message", len(sends) > 0 and HS_.is_send(sends[-1], "RequestEndOfMessage"))
+    vc.ensure("order", HS_.kinds(sends) == ["Send(RequestHeaders)"] + ["Send(RequestData)"] * len(datas) + ["Send(RequestEndOfMessage)"])
